@@ -1,18 +1,18 @@
 --------------------------- MODULE ConfigLocGen ---------------------------
 (* E1 + E2 for C49.  Family = "loc": TLC enumerates sets of location sections (1..MaxSecs sections with distinct
-   names over paths of <= MaxSeg components, option kinds Kinds, ignore_parents values Igns, trailing slash Trails),
+   names over paths of <= MaxSeg components of Segs, option kinds Kinds, ignore_parents values Igns, trailing slash Trails),
    checks the laws of ConfigLoc on the spec's own prediction for every location of <= LocMaxSeg components and the
    declarative characterisation of the search for every admissible order, and exports the sections with the
    predicted value per location.  Family = "val": TLC enumerates the option values of <= MaxVal tokens with their
    input class (the round-trip law is the identity).
    State graph: Parts root states, each with a slice of the case table as successors (parallel checking).   *)
 EXTENDS ConfigLoc, Json, IOUtils, SequencesExt
-CONSTANTS Family, MaxSeg, LocMaxSeg, MaxSecs, Kinds, Igns, Trails, MaxVal, Parts
+CONSTANTS Family, Segs, MaxSeg, LocMaxSeg, MaxSecs, Kinds, Igns, Trails, MaxVal, Parts
 
 Locs   == SeqsFromTo(LocSegs, 1, LocMaxSeg)
 LocSeq == TLCEval(SetToSeq(Locs))
 
-SecRecs == IF Family = "loc" THEN [path : SeqsFromTo(SecSegs, 1, MaxSeg), trail : Trails, opt : Kinds, ign : Igns] ELSE {}
+SecRecs == IF Family = "loc" THEN [path : SeqsFromTo(Segs, 1, MaxSeg), trail : Trails, opt : Kinds, ign : Igns] ELSE {}
 SameName(x, y) == x.path = y.path /\ x.trail = y.trail
 SecSets == {{x} : x \in SecRecs}
            \cup (IF MaxSecs >= 2 THEN {{x, y} : x, y \in SecRecs} ELSE {})
@@ -39,16 +39,26 @@ WCut(S)    == \E loc \in Locs : SpecValue(S, loc) = None /\ \E k \in Applicable(
 WOwn(S)    == \E loc \in Locs : SpecValue(S, loc) # CodeValue(S, loc)
 WTie(S)    == \E loc \in Locs : Cardinality(Outcomes(S, loc, TRUE)) > 1 /\ Cardinality(Orders(S, Applicable(S, loc))) > 1
 WGlob(S)   == \E loc \in Locs : \E k \in Applicable(S, loc) :
-                 Defines(S[k]) /\ SpecValue(S, loc) = ValueOf(S, k, Extra(S[k], loc)) /\ (\E q \in DOMAIN S[k].path : S[k].path[q] \in {"*", "a*"})
+                 Defines(S[k]) /\ SpecValue(S, loc) = ValueOf(S, k, Extra(S[k], loc)) /\ (\E q \in DOMAIN S[k].path : S[k].path[q] \in {"*", "a*", "a*b*"})
                  /\ \E j \in Applicable(S, loc) : Len(S[j].path) < Len(S[k].path) /\ Defines(S[j])
 WRest(S)   == \E loc \in Locs : \E k \in Applicable(S, loc) :
                  S[k].opt \in {"append", "relpath", "basename"} /\ Len(Extra(S[k], loc)) >= 2
                  /\ SpecValue(S, loc) = ValueOf(S, k, Extra(S[k], loc))
+\* the value comes from a section with more components but a SHORTER name than another applicable, defining section
+WLen(S)    == \E loc \in Locs : \E k, j \in Applicable(S, loc) :
+                 Defines(S[k]) /\ Defines(S[j]) /\ Len(S[k].path) > Len(S[j].path) /\ Len(IdChars(S[k])) < Len(IdChars(S[j]))
+                 /\ SpecValue(S, loc) = ValueOf(S, k, Extra(S[k], loc))
+\* ignore_parents = false on a more specific section does not stop the search
+WFalse(S)  == \E loc \in Locs : \E k, j \in Applicable(S, loc) :
+                 S[k].ign = "false" /\ ~Defines(S[k]) /\ Defines(S[j]) /\ Len(S[k].path) > Len(S[j].path)
+                 /\ SpecValue(S, loc) = ValueOf(S, j, Extra(S[j], loc))
 Wit(W(_)) == \E x \in LocCases : W(x)
 WitV(cl)  == \E x \in ValCases : ValClass(x) = cl
 WitnessAll == ~(/\ lvl = 0 /\ part = 1
                 /\ IF Family = "loc"
                    THEN ("true" \notin Igns \/ (Wit(WOwn) /\ ("none" \notin Kinds \/ Wit(WCut)))) /\ Wit(WTie) /\ (MaxSeg < 2 \/ Wit(WGlob)) /\ (Kinds \subseteq {"none", "plain"} \/ Wit(WRest))
+                        /\ ("a*b*" \notin Segs \/ MaxSeg < 2 \/ Wit(WLen))
+                        /\ ("false" \notin Igns \/ "none" \notin Kinds \/ MaxSeg < 2 \/ Wit(WFalse))
                    ELSE WitV("newline") /\ WitV("both-quote-kinds-and-hash")
                         /\ WitV("quoted-string-with-both-quote-kinds") /\ WitV("other"))
 
